@@ -80,8 +80,9 @@ class OpAdd(Op):
         target = self.path.parts[-1]
         if isinstance(parent, MutableSequence):
             if obj is UNDEFINED:
-                # "-" and an index equal to the length both mean "append".
-                if target == "-" or target == len(parent):
+                # "-" and an index equal to the length both mean "append". The
+                # index may be an integer or its string form.
+                if target == "-" or str(target) == str(len(parent)):
                     parent.append(value)
                 else:
                     raise JSONPatchError("index out of range")
@@ -129,7 +130,7 @@ class OpAddNe(OpAdd):
         if isinstance(parent, MutableSequence):
             if obj is UNDEFINED:
                 # Same as "add": "-" and an index equal to the length append.
-                if target == "-" or target == len(parent):
+                if target == "-" or str(target) == str(len(parent)):
                     parent.append(value)
                 else:
                     raise JSONPatchError("index out of range")
